@@ -69,7 +69,13 @@ MANIFEST = dict(
          "the counter naming the last slot, store-then-advance with the counter counting slots), the larger-flag store the last slot in use "
          "(`keep[c]` resp. `keep[c - 1]`, `keep[-1]` of a list), and every use of the container after the scan must be the slice [0 : slots in use] "
          "(`keep[:c + 1]` resp. `keep[:c]`); a store to another slot or another extent is a violation. A path that returns before any sorting after it "
-         "has established size(input) == 1 is decided on its term: the single index 0 (zeros(n), zeros(1), [0], arange(n), argsort(input)).",
+         "has established size(input) == 1 is decided on its term: the single index 0 (zeros(n), zeros(1), [0], arange(n), argsort(input)). "
+         "The presorted switch is a declaration read by its truth value: match is also executed with the switch bound to `some falsy object other than "
+         "False` and `some truthy object other than True` (identity tests against True / False fail, identity / equality against a constant of the other "
+         "truth value fail, against one of the same truth value go either way) and every returning path must satisfy all rules, so decisions on the switch "
+         "that disagree along one path (sorted through the argsort, positions used unmapped) are a violation. The second index array names positions of the "
+         "caller's second array: a bare where() over a data-dependent selection second[j] (probes filtered or re-ordered before the equality test) is a "
+         "violation unless the path may have established that the selection keeps every element; positions mapped back through j give no verdict.",
     note="Not decided: completeness for all arrays (numpy.searchsorted/argsort/unique semantics trusted); NaN handling.",
     technique="static analysis: path-wise symbolic execution to normalised terms (match, vectorised unique), index-space typing over "
               "expression descriptors with CFG control dependence (scan loops)",
@@ -141,13 +147,18 @@ def is_scalar(t):
     h = t[0]
     if h == "const":
         return isinstance(t[1], (int, float, bool)) or t[1] is None
-    if h in ("size", "max", "min"):
+    if h in ("size", "max", "min", "flagv"):
         return True
     if h == "binop":
         return is_scalar(t[2]) and is_scalar(t[3])
     if h == "take":
         return is_const(t[2]) and isinstance(t[2][1], int) and not isinstance(t[2][1], bool)
     return False
+
+
+def is_flagv(t):
+    """('flagv', truth): a switch parameter of which only the truth value is known -- some object other than the bool of that truth value"""
+    return isinstance(t, tuple) and len(t) == 2 and t[0] == "flagv"
 
 
 def t_cmp(op, l, r):
@@ -160,6 +171,13 @@ def t_cmp(op, l, r):
                       "isnot": not (a is b or (a == b and type(a) is type(b)))}[op])
         except Exception:
             pass
+    if op in ("eq", "ne", "is", "isnot") and ((is_flagv(l) and is_const(r)) or (is_flagv(r) and is_const(l))):
+        # a switch known only by its truth value (any falsy object other than False / any truthy object other than True) against a constant:
+        # it is never the object True or False, it is never the same object as / equal to a constant of the other truth value; anything else
+        # (falsy == False: yes for 0, no for None) depends on which object it is and stays a test that can go either way
+        fv, c = (l, r) if is_flagv(l) else (r, l)
+        if (op in ("is", "isnot") and isinstance(c[1], bool)) or bool(c[1]) != fv[1]:
+            return K(op in ("ne", "isnot"))
     if op in ("in", "notin") and isinstance(r, tuple) and r[0] in ("tuple", "list"):
         d = t_or([t_cmp("eq", l, x) for x in r[1:]])
         return d if op == "in" else t_not(d)
@@ -715,6 +733,8 @@ class SX:
                 return K((x == NONE) == (t[1] == "is"))
             if x[0] in _ARRAYISH or x[0] in ("tuple", "list", "size"):
                 return K(t[1] == "isnot")
+        if h == "flagv":
+            return K(t[1])
         if h == "not":
             return t_not(self._truth(t[1]))
         if h == "or":
@@ -891,6 +911,8 @@ class SX:
             for op, c in zip(e.ops, e.comparators):
                 r = self.ev(c, fr)
                 parts.append(t_cmp(_CMPOPS[type(op)], l, r))
+                if is_flagv(l) or is_flagv(r):
+                    self.events.append(("flagcmp", norm(e), e.lineno, self._seq(), parts[-1]))
                 l = r
             return parts[0] if len(parts) == 1 else t_and(parts)
         if isinstance(e, ast.BoolOp):
@@ -1324,6 +1346,16 @@ class Verdicts:
             chk.ob(rule, prefix + "::" + key, ok, pick[2], pick[1])
 
 
+class _Noted:
+    """a Verdicts view that appends a note to the message of every instance that does not pass"""
+
+    def __init__(self, V, note):
+        self.V, self.note = V, note
+
+    def add(self, key, ok, msg, where):
+        self.V.add(key, ok, msg if ok else msg + self.note, where)
+
+
 def root_of(t):
     """(parameter term, conversions on the way) for a chain of array normalisations / conversions, else (None, ...)"""
     conv = []
@@ -1365,6 +1397,8 @@ def show(t):
         return repr(t[1])
     if h == "param":
         return t[1]
+    if h == "flagv":
+        return "<some %s object other than %s>" % ("truthy" if t[1] else "falsy", t[1])
     if h in ("a1d", "asarr"):
         return "%s(%s)" % ("atleast_1d" if h == "a1d" else "asarray", show(t[1]))
     if h == "take":
@@ -1641,17 +1675,24 @@ def match_rules(chk, mod):
     flag = "presorted" if "presorted" in fi.params else (fi.params[2] if len(fi.params) > 2 else None)
     a1, a2 = ("a1d", ("param", p1)), ("a1d", ("param", p2))
     V = Verdicts()
-    for pres in (False, True):
+    # the switch is a declaration read by its truth value ("declaring a sorted first array as presorted gives the same result"): besides the two
+    # bools the function is executed with the switch bound to `some falsy object other than False` (0, None, numpy.bool_(False) as handed
+    # back by numpy.all(...)) and to `some truthy object other than True`; an identity / equality test against a constant of the same truth
+    # value can go either way there, and every path must still satisfy every rule -- in particular all decisions taken on the switch along
+    # one path have to agree about whether the search ran through the argsort
+    for fv in (K(False), K(True), ("flagv", False), ("flagv", True)):
+        pres = fv[1]
+        label = "%s" % pres if is_const(fv) else ("any %s value other than %s" % ("truthy" if pres else "falsy", pres))
         sx = SX(mod.defs, consts=mod.consts)
         try:
-            paths = sx.run(fn, {flag: K(pres)} if flag else {})
+            paths = sx.run(fn, {flag: fv} if flag else {})
         except Unsupported as e:
             chk.ob("R06.2", q + "::recognised", None, fi.where(), "match could not be executed symbolically (%s)" % e)
             return
         rets = [p for p in paths if p.kind == "return"]
-        V.add("returns[presorted=%s]" % pres, bool(rets) or None, "match has a returning path", fi.where())
+        V.add("returns[presorted=%s]" % label, bool(rets) or None, "match has a returning path", fi.where())
         for p in rets:
-            _match_path(V, fi, p, pres, a1, a2, mod.state)
+            _match_path(V, fi, p, pres, a1, a2, mod.state, label)
         if not flag:
             break
     V.emit(chk, "R06.2", q)
@@ -1667,9 +1708,15 @@ def match_rules(chk, mod):
     chk.ob("R06.3", mm.qualname + "::delegates", ok, mm.where(), "match_multi delegates to match with the same two arrays")
 
 
-def _match_path(V, fi, p, pres, a1, a2, state=None):
+def _match_path(V, fi, p, pres, a1, a2, state=None, label=None):
     state = state or {}
-    tag = "[presorted=%s]" % pres
+    tag = "[presorted=%s]" % (pres if label is None else label)
+    fc = [e for e in p.events if e[0] == "flagcmp"]
+    if fc:
+        V = _Noted(V, " -- on this path the switch is not a bool and was tested with %s, which does not follow its truth value (%s)" % (
+            "; ".join("`%s` at line %d (%s)" % (e[1], e[2], "never true for such a value" if e[4] == K(False) else
+                                                 ("always true for such a value" if e[4] == K(True) else "can go either way for such a value%s" % (
+                                                     {t: ", taken as %s here" % v for t, v, _ in p.facts}.get(e[4], "")))) for e in fc), pres))
     w = "%s:%s" % (fi.where().rsplit(":", 1)[0], p.line)
     wf = fi.where()
     s = ("argsort", a1)
@@ -1732,6 +1779,23 @@ def _match_path(V, fi, p, pres, a1, a2, state=None):
         if rt == ("param", fi.params[1]) and other[0] == "take":
             y, x = cand, other
     if y is None:
+        # the second index array names positions of the array the equality test ran over: when that array is a selection second[j] (probes
+        # filtered by a mask, gathered in another order), the bare where() result counts positions inside the selection, not in the caller's array
+        for cand, other in ((l, rr), (rr, l)):
+            g, j = cand, None
+            while isinstance(g, tuple) and g and g[0] == "take" and root_of(g)[0] is None:
+                g, j = g[1], g[2]
+            if j is None or root_of(g)[0] != ("param", fi.params[1]) or other[0] != "take":
+                continue
+            sel = cand[2]
+            dep = any(contains(sel, ("param", q_)) for q_ in fi.params[:2])
+            ident = any(k is None or k == "noexceed" for _, _, k in kinds) or any(end_fact(t, v) is not None for t, v, _ in kinds)
+            V.add("second-indices-name-the-second-array" + tag, False if dep and not is_scalar(sel) and not ident else None,
+                  "the second index array holds positions in the caller's second array: where(<found> == second) over the whole array, or the "
+                  "positions inside a selection second[j] mapped back through j; found the bare positions of where() over the selection `%s` "
+                  "(selected by `%s`, which depends on the data and is not known to keep every element on the path returning at line %d), so every "
+                  "pair after a dropped / moved element names the wrong element of the second array" % (short(cand, 70), short(sel, 90), p.line), w)
+            return
         V.add(key, None, msg + "; operands not recognised: %s" % short(i2[1]), w)
         return
     kv = "compared-values-are-the-inputs::"
